@@ -21,6 +21,7 @@ TABLE_CLASSES: List[Tuple[str, str, List[str]]] = [
     ("mmCIF table with label items only, no insertion code column", "mmCIF", CIF_BASE + ["label_asym_id", "label_seq_id"]),
     ("mmCIF table with auth_asym_id but no auth_seq_id", "mmCIF", CIF_BASE + ["label_asym_id", "label_seq_id", "auth_asym_id", "pdbx_PDB_ins_code"]),
     ("mmCIF table with auth_seq_id but no auth_asym_id", "mmCIF", CIF_BASE + ["label_asym_id", "label_seq_id", "auth_seq_id", "pdbx_PDB_ins_code"]),
+    ("mmCIF table with author atom and residue names that differ from the label ones", "mmCIF", CIF_BASE + ["auth_atom_id", "auth_comp_id", "label_asym_id", "label_seq_id", "auth_asym_id", "auth_seq_id", "pdbx_PDB_ins_code"]),
     ("table of unknown format", "XYZ", ["a", "b"]),
 ]
 
@@ -45,12 +46,12 @@ def _table(fmt: str, cols: List[str]):
     rows = []
     for k, (chain, num, ic) in enumerate(GROUP_ROWS):
         full = {
-            "record_type": "ATOM", "group_PDB": "ATOM", "serial": k + 1, "id": k + 1, "name": ["P", "C4'", "N1"][k % 3], "label_atom_id": ["P", "C4'", "N1"][k % 3], "resName": "G", "label_comp_id": "G",
+            "record_type": "ATOM", "group_PDB": "ATOM", "serial": k + 1, "id": k + 1, "name": ["P", "C4'", "N1"][k % 3], "label_atom_id": ["P", "C4'", "N1"][k % 3], "resName": "G", "label_comp_id": "G", "auth_comp_id": "GTP", "auth_atom_id": ["P", "C4*", "N1"][k % 3],
             "chainID": chain, "label_asym_id": chain.lower(), "auth_asym_id": chain, "resSeq": num, "label_seq_id": num + 100, "auth_seq_id": num, "iCode": ic, "pdbx_PDB_ins_code": ic,
             "x": 1.0 + k, "y": 2.0, "z": 3.0, "Cartn_x": 1.0 + k, "Cartn_y": 2.0, "Cartn_z": 3.0, "a": k, "b": k,
         }
         rows.append({c: full[c] for c in cols})
-    return frame_from_rows(rows, fmt, categories=[c for c in ("record_type", "group_PDB", "name", "label_atom_id", "resName", "label_comp_id", "chainID", "label_asym_id", "auth_asym_id", "iCode", "pdbx_PDB_ins_code") if c in cols], ints=[c for c in ("serial", "resSeq", "label_seq_id", "auth_seq_id") if c in cols])
+    return frame_from_rows(rows, fmt, categories=[c for c in ("record_type", "group_PDB", "name", "label_atom_id", "auth_atom_id", "resName", "label_comp_id", "auth_comp_id", "chainID", "label_asym_id", "auth_asym_id", "iCode", "pdbx_PDB_ins_code") if c in cols], ints=[c for c in ("serial", "resSeq", "label_seq_id", "auth_seq_id") if c in cols])
 
 
 def check_group_columns_eval(chk, rs) -> bool:
@@ -305,4 +306,98 @@ def check_segments_eval(chk) -> bool:
         return False
     with evidence(chk, "connect-order"):
         chk.expect(not bad, "connect-order", fi.where, f"evaluated on {len(SEGMENT_CASES)} residue lists: per chain the residues are ordered by (number, insertion code) and cut into maximal runs of linked neighbours, runs of two and more are reported, no link crosses chains", "the segments are not the maximal runs of linked neighbours per chain in (number, insertion code) order: " + "; ".join(bad[:2]), K(fi, "segments"), found=bad[:4])
+    return True
+
+
+# --------------------------------------------------------------------------------------------------------------------
+# round 4: the accessors of both residue models evaluated on interpreted instances (sa/fragment.py:Instance)
+# --------------------------------------------------------------------------------------------------------------------
+def check_accessors_eval(chk) -> bool:
+    """tertiary_v2.Residue (chain_id, residue_number, residue_name, insertion_code, find_atom) and tertiary_v2.Atom (name, coordinates)
+    on one residue table per class of (format, columns present); common.Residue (chain, number, name) on label / author identities.
+    Rules prefer-auth, pdb-field, icode-field, atom-by-name, coordinates-items."""
+    from sa.fragment import Instance
+    from sa.frame import Frame, isna, pd_namespace
+
+    repo = chk.repo
+    bad: Dict[str, List[str]] = {}
+    n = 0
+    try:
+        for tag, fmt, cols in TABLE_CLASSES:
+            if fmt not in ("PDB", "mmCIF"):
+                continue
+            full = _table(fmt, cols)
+            # one residue: chain B, number -1 (rows of the last key), and one with an insertion code
+            for pick, want_ic in ((("B", -1, None), None), (("A", 5, "A"), "A")):
+                pos = [i for i, r in enumerate(GROUP_ROWS) if r == pick]
+                sub = full._take(pos)
+                sub.attrs["format"] = fmt
+                env: Dict[str, Any] = {"pd": pd_namespace(), "np": _numpy_stub(), "numpy": _numpy_stub()}
+                env["Atom"] = lambda data, f, _env=env: Instance(repo, T2, "Atom", _env, data=data, format=f)
+                res = Instance(repo, T2, "Residue", env, atoms=sub, format=fmt)
+                n += 1
+                chain_col = "chainID" if fmt == "PDB" else ("auth_asym_id" if "auth_asym_id" in cols else "label_asym_id")
+                num_col = "resSeq" if fmt == "PDB" else ("auth_seq_id" if "auth_seq_id" in cols else "label_seq_id")
+                name_col = "resName" if fmt == "PDB" else ("auth_comp_id" if "auth_comp_id" in cols else "label_comp_id")
+                ic_col = "iCode" if fmt == "PDB" else "pdbx_PDB_ins_code"
+                atom_col = "name" if fmt == "PDB" else ("auth_atom_id" if "auth_atom_id" in cols else "label_atom_id")
+                want = {"chain_id": sub._cols[chain_col][0], "residue_number": int(sub._cols[num_col][0]), "residue_name": sub._cols[name_col][0], "insertion_code": (want_ic if ic_col in cols else None)}
+                for prop, w in want.items():
+                    if prop == "insertion_code" and fmt == "PDB" and ic_col not in cols:
+                        continue  # parse_pdb_atoms always creates the iCode column; a PDB table without it is not a class of input
+                    try:
+                        g = getattr(res, prop)
+                    except (Unknown, AttributeError):
+                        raise
+                    except Exception as ex:
+                        g = f"<raises {type(ex).__name__}>"
+                    if isinstance(g, float) and isna(g):
+                        g = None
+                    if g != w or type(g) is not type(w):
+                        rule = "icode-field" if prop == "insertion_code" else ("pdb-field" if fmt == "PDB" else "prefer-auth")
+                        bad.setdefault(rule, []).append(f"{tag}: Residue.{prop} is {g!r}, the table says {w!r} ({ {'chain_id': chain_col, 'residue_number': num_col, 'residue_name': name_col, 'insertion_code': ic_col}[prop] })")
+                # atoms by exact name; coordinates in axis order
+                names = list(sub._cols[atom_col])
+                for k, nm in enumerate(names):
+                    a = res.find_atom(nm)
+                    first = names.index(nm)
+                    xs = sub._cols["x" if fmt == "PDB" else "Cartn_x"]
+                    if a is None or not isinstance(a, Instance):
+                        bad.setdefault("atom-by-name", []).append(f"{tag}: find_atom({nm!r}) finds nothing although the residue has that atom")
+                        continue
+                    co = a.coordinates
+                    if [float(v) for v in co] != [float(xs[first]), 2.0, 3.0]:
+                        bad.setdefault("coordinates-items", []).append(f"{tag}: the coordinates of atom {nm!r} are {list(co)}, the row says {[xs[first], 2.0, 3.0]}")
+                    if a.name != nm:
+                        bad.setdefault("atom-by-name", []).append(f"{tag}: find_atom({nm!r}) returns the atom named {a.name!r}")
+                if res.find_atom("XX9") is not None or res.find_atom(names[0].lower() + "'") is not None:
+                    bad.setdefault("atom-by-name", []).append(f"{tag}: find_atom returns an atom for a name the residue does not have")
+        # residue-level model: the author identity wins, the label identity is the fallback
+        for what in ("chain", "number", "name"):
+            for has_auth, has_label in ((True, True), (True, False), (False, True)):
+                auth = Obj("auth", chain="A", number=-3, name="GTP", icode=None) if has_auth else None
+                label = Obj("label", chain="x", number=41, name="G") if has_label else None
+                r = Instance(repo, "common", "Residue", {}, label=label, auth=auth)
+                g = getattr(r, what)
+                w = getattr(auth if has_auth else label, what)
+                if g != w:
+                    bad.setdefault("prefer-auth", []).append(f"common.Residue.{what} is {g!r} for a residue with {'author and label' if has_auth and has_label else ('author' if has_auth else 'label')} identity, expected {w!r}")
+    except (Unknown, AttributeError) as ex:
+        chk.ok("accessors-eval", "-", f"the residue accessors are not evaluable on interpreted instances ({str(ex)[:80]}): the pinned-form rules decide")
+        return False
+    fi = repo.func(T2, "Residue.chain_id")
+    texts = {
+        "prefer-auth": f"evaluated on {n} residue tables and 9 residue-level identities: chain, number and name come from the author items when they exist, else from the label items",
+        "pdb-field": "evaluated: PDB rows give chain, number and name from chainID, resSeq and resName",
+        "icode-field": "evaluated: the insertion code comes from iCode / pdbx_PDB_ins_code, None when missing or when the column does not exist",
+        "atom-by-name": "evaluated: find_atom returns the atom of exactly that name (author atom names first), None for a name the residue does not have",
+        "coordinates-items": "evaluated: coordinates are (x, y, z) resp. (Cartn_x, Cartn_y, Cartn_z) in axis order",
+    }
+    with evidence(chk, *texts):
+        for rule, text in texts.items():
+            if rule in bad:
+                chk.violation(rule, fi.where, "; ".join(bad[rule][:2]), K(fi, f"accessors:{rule}"), found=bad[rule][:4])
+            else:
+                for _ in range(6 if rule == "prefer-auth" else 1):
+                    chk.ok(rule, fi.where, text if _ == 0 else f"{text} [{['chain', 'number', 'name', 'chain (residue level)', 'number (residue level)', 'name (residue level)'][_]}]")
     return True
